@@ -646,6 +646,104 @@ def hostile_session(live, rng, steps=150, params=None, target=None):
     return S
 
 
+def handmade_peer_session(live, rng):
+    """one real socket against a HAND-MADE peer: we build the peer's connect message (with a chosen option list) and every
+    ACK (all in order, all advertising the same 16-bit window), so the window the peer advertised is known exactly and
+    independently of what the socket believes: W16 << k where k is the value of a well-formed window-scale option
+    (kind 3, length 1; above 14 means 14) of the connect message, 0 without one.  Oracle: oracle_handmade."""
+    S = Sess(live, rng)
+    conv = rng.choice([0, 7, rng.randrange(M32)])
+    S.t(rng.choice([1, 1000, 123456]))
+    S.new("l", conv, rng.choice([0, 1]), rng.choice([4096, 61440, 1 << 17]), rng.choice([65536, 1 << 18, 1 << 20]), 1, 0)
+    S.sockop("l", "ptcp connect l", "connect")
+    if not S.alive() or not S.net["r"]:
+        return S
+    syn = pkt_fields(S.net["r"].pop(0))
+    opts, scale = bytearray(), 0
+    for _ in range(rng.choice([0, 1, 1, 2, 3])):
+        r = rng.random()
+        if r < 0.30:
+            k = rng.choice([0, 1, 2, 3, 7, 14, 15, 200])
+            opts += bytes([3, 1, k]); scale = min(k, 14)           # the last well-formed one counts
+        elif r < 0.55:
+            opts += bytes([2, 1, rng.choice([1, 2, 7, 14, 255])])   # MSS option, one value byte: not supported, ignored
+        elif r < 0.65:
+            opts += bytes([2, 2, 5, 0xb4])                          # MSS option of the usual size: ignored
+        elif r < 0.75:
+            opts += bytes([254, 1, 0])                              # FIN-ACK support
+        elif r < 0.85:
+            opts += bytes([1])                                      # no-op
+        elif r < 0.93:
+            opts += bytes([rng.choice([4, 5, 8, 77, 253]), 1, rng.choice([1, 9, 14])])   # unknown kinds: ignored
+        else:
+            opts += bytes([3, rng.choice([0, 2]), 9, 9][:2 + rng.choice([0, 2])])        # window scale with a wrong length: ignored
+            break                                                   # (whatever follows is not relied upon)
+    W16 = rng.choice([1, 50, 100, 400, 1000, 5000, 20000, 65535])
+    now = S.now
+    A = (syn["seq"] + syn["len"]) % M32
+    S.sockop("l", "ptcp pkt l " + mk_pkt(conv, 0, A, 2, W16, now, now, bytes([0]) + bytes(opts)).hex(), "deliver")
+    pseq = 1 + len(opts)
+    S.hand = {"W16": W16, "scale": scale, "opts": bytes(opts).hex(), "acks": [(len(S.ops) - 1, A)], "conv": conv}
+    S.net["r"].clear()
+    for _ in range(rng.choice([3, 6, 12])):
+        if not S.alive():
+            break
+        S.send("l", rng.choice([100, 1000, 20000, 70000]), rng.randrange(256))
+        # the peer acknowledges everything it was sent, in order, same window
+        for _ in range(30):
+            if not S.net["r"] or not S.alive():
+                break
+            hi = A
+            for h in S.net["r"]:
+                f = pkt_fields(h)
+                if f and f["len"] and not (f["flags"] & 2) and (f["seq"] - hi) % M32 == 0:
+                    hi = (f["seq"] + f["len"]) % M32
+            S.net["r"].clear()
+            if hi == A:
+                break
+            A = hi
+            S.sockop("l", "ptcp pkt l " + mk_pkt(conv, pseq, A, 0, W16, S.now, S.now).hex(), "deliver")
+            S.hand["acks"].append((len(S.ops) - 1, A))
+        if rng.random() < 0.3:
+            S.t(S.now + rng.choice([10, 250, 1000]))
+            S.clock("l")
+    return S
+
+
+def oracle_handmade(S):
+    """no NEW data beyond (last acknowledged) + (advertised 16-bit window << advertised scale)"""
+    h = getattr(S, "hand", None)
+    if not h:
+        return None
+    limit = h["W16"] << h["scale"]
+    acks = dict(h["acks"])
+    A, hi = None, None
+    for i, line in enumerate(S.ops):
+        d = parse_reply(S.outs[i])
+        if d is None:
+            continue
+        if i in acks:
+            A = acks[i]
+            if hi is None:
+                hi = A
+        if A is None:
+            continue
+        for e in d["ev"]:
+            if not e.startswith("p:"):
+                continue
+            f = pkt_fields(e[2:])
+            if f is None or f["len"] == 0 or (f["flags"] & 2):
+                continue
+            end = (f["seq"] + f["len"] - A) % M32
+            if end < (1 << 31) and (f["seq"] + f["len"] - hi) % M32 < (1 << 31) and (f["seq"] + f["len"] - hi) % M32 > 0:
+                if end > limit and not (limit == 0):
+                    return (f"op {i}: the peer's connect message carried options {h['opts'] or '(none)'} (window scale {h['scale']}) and every ACK "
+                            f"advertised a window of {h['W16']}: the socket sent new data up to {end} bytes past the last acknowledged byte, "
+                            f"the advertised window is {limit}")
+                hi = (f["seq"] + f["len"]) % M32
+    return None
+
+
 # --------------------------------------------------------------------------- oracles (on the REAL code's outputs)
 def oracle_prefix(S):
     """C08 (N): in both directions the bytes read are a prefix of the bytes accepted by send"""
@@ -958,11 +1056,12 @@ def run(tier, seed):
                              lambda live, rng: legit_session(live, rng, steps=rng.choice([80, 160])))
             chk.note(f"generated {len(H)} hostile + {len(L)} legitimate sessions on the real code in {time.time() - t0:.1f}s")
             corpus = run_corpus_scripts(exe, load_corpus("C10"), seed)
-            allS = [s for _, s in corpus] + H + L
+            M = gen_parallel(exe, [f"C10/m/{base + i}" for i in range(120 if tier == "quick" else 2000)], handmade_peer_session)
+            allS = [s for _, s in corpus] + H + L + M
             known_seen = {}
             for S in allS:
                 c = crashed(S)
-                why = None if c else oracle_c10(S)
+                why = None if c else (oracle_c10(S) or oracle_handmade(S))
                 if c or why:
                     rec = c or {"session": S.ops, "why": why}
                     k = known_match("C10", rec["why"] + " " + rec.get("stderr", ""))
@@ -1142,6 +1241,55 @@ def halfclose_unread_session(live, rng, lossy=False):
             d = S.recv(x, rng.choice([100, 4096, 70000]))
             if not d or d["ret"] <= 0:
                 break
+    return S
+
+
+def stale_window_close_session(live, rng):
+    """C08 directed: the receiver's buffer filled while it did not read (advertised window 0); a small read frees less
+    than the window-update threshold min(rcv-buf / 2, MSS), so the advertised window stays 0 although there is room again;
+    the writer writes a little more and closes gracefully — the close flushes the queued data together with the FIN — and
+    the FIN overtakes the data (reordering) or the data segment is lost once and retransmitted.  Everything written
+    before the graceful close must still be read before end-of-stream."""
+    S = Sess(live, rng)
+    rb = rng.choice([1024, 2000, 4096, 8192])
+    if not start_pair(S, rng, None, dict(finack_l=1, finack_r=rng.choice([0, 1, 1]), rcvbuf_r=rb, rcvbuf_l=61440, sndbuf_l=65536,
+                                         sndbuf_r=4096, nodelay_l=1, nodelay_r=1, ackdelay_l=0, ackdelay_r=0)):
+        return S
+    if not establish(S, rng):
+        return S
+    todo = rb
+    for _ in range(60):
+        if todo <= 0 or not S.alive():
+            break
+        d = S.send("l", todo, rng.randrange(256))
+        if d and d["ret"] > 0:
+            todo -= d["ret"]
+        flush_net(S, rng)
+        if S.last["r"] and S.last["r"]["rb"] >= len(S.sent["l"]) and todo <= 0:
+            break
+        if not (S.net["l"] or S.net["r"]):
+            tick(S, "l", rng)
+    if not S.alive() or not S.last["r"]:
+        return S
+    thr = max(min(rb // 2, S.last["r"]["mss"]), 2)
+    x = rng.randrange(1, thr)
+    S.recv("r", x)
+    flush_net(S, rng)
+    y = rng.randrange(1, x + 1)
+    S.send("l", y, rng.randrange(256))
+    flush_net(S, rng)
+    if rng.random() < 0.7:
+        S.shut("l", "wr")
+    else:
+        S.close("l", 0)
+    how = rng.choice(["fin-first", "fin-first", "drop-data", "in-order"])
+    pk = list(S.net["r"])
+    if how == "fin-first":
+        S.net["r"] = pk[::-1]
+    elif how == "drop-data" and len(pk) > 1:
+        S.net["r"] = pk[-1:]
+    S.stale = {"rb": rb, "read_first": x, "then_written": y, "how": how, "flushed_packets": len(pk)}
+    c09_heal(S, rng, {"l": 0, "r": 0}, {"l": len(S.sent["l"]), "r": 0}, max_ops=4000)
     return S
 
 
